@@ -43,6 +43,7 @@ type Prog struct {
 	modFunc    map[*ssa.Function]bool
 	uniq       map[*ssa.Function][]ssa.CallInstruction
 	bound      map[*ssa.Function][]*ssa.MakeClosure // method (origin) → the method values created of it
+	pairLoops  map[string]*pairLoop                 // per-block two-bitmap loops found by shape (pairloops.go)
 	publishers map[*ssa.Function]bool               // accessors that hand out a value loaded from an atomic.Value
 }
 
